@@ -11,8 +11,7 @@ class C04(OptCheck):
     technique = "Coq proof over the executable parser model (no developer error, error iff documented condition) + malformed-input differential run under ASan/UBSan with a watchdog"
     level_text = 'Theorems: no developer error for consistent declarations, guarded accessors never fire (parse_g = parse_c), user-input error IFF documented_condition (lexical / semantic / limit / source conditions, each characterised), totality by construction. PARTIAL: crash/hang/out-of-bounds freedom is a machine fact, exercised by the malformed stream under ASan/UBSan with a watchdog'
     level_note = "trusted: Coq kernel; ExtrOcamlBasic extraction + OCaml; the differential harness (generators, C++ driver through the public API under ASan/UBSan, canonical observation lines); gen/tr_vocab.py for C11. Theorem hypotheses: wf_decl (names non-empty, no '=', not starting with '-', pairwise distinct; letters neither '-' nor '='), no_clash (known finding K1: no toggle foo next to anything called no-foo), aligned state (every reachable state is: C14_reachable_aligned). Modelled, not verified: std::map name order, std::multiset::count on letters, std::getline at ';', getenv, object lifetimes, int overflow of counts (model uses Z), operator>> for typed access (exercised with as<long> on decimal texts only). The tie model=code is bounded-exhaustive + sampled, not proved"
-    rule = ("core stream (exhaustive short vectors over declaration-relative tokens for 12 declaration shapes, random vectors, random "
-            "declarations and environments) + malformed stream: every byte string of length <= 4 over {-,=,a,LF} as a single token and in "
+    rule = ("core stream (exhaustive short vectors over declaration-relative tokens for 12 declaration shapes; random vectors, random declarations and environments; 'steps' histories on ONE long-lived parser object — several calls, environment changes, further declarations, move construction, move assignment from a differently declared parser — each call also made on a freshly built identical parser; declarations spread over named groups in a hash-derived order) + malformed stream: every byte string of length <= 4 over {-,=,a,LF} as a single token and in "
             "each position of a 3-token vector, 100000-letter bundles, 1000 '='; non-trivial = at least one token; distinct = distinct case line")
 
     def cases(self, tier, rng):
